@@ -123,7 +123,9 @@ theorem assemble_layout (fixed : Bool) (z : Bytes) (d : Directory) (ms : List Me
   · rename_i nd dels pos hw
     split at h
     · cases h
-    · obtain ⟨w1, w2, w3, _, _⟩ := walk_spec fixed true jarKeep ms 0 nd0 [] nd dels pos hw
+    · split at h
+      · cases h
+      obtain ⟨w1, w2, w3, _, _⟩ := walk_spec fixed true jarKeep ms 0 nd0 [] nd dels pos hw
       simp only [Res.ok.injEq] at h
       have hp : p ≤ d.dirLoc := contig_le ms p _ hc
       have hk : applyDels z 0 dels d.dirLoc = z.take p ++ keptBytes z jarKeep ms := by
